@@ -36,7 +36,8 @@ OBLIGATIONS = {"lhs": 50, "lhs:n=1": 3, "lhs:narrow-range": 5, "lhs:scalar-pmax"
                "pareto:complete": 30, "pareto:nan": 30, "pareto:ties": 30,
                "pareto:n<=1": 5, "box:nan-inf": 30, "box:lt4": 10, "box:constant": 5,
                "box:by": 20, "violin": 20, "violin:inf": 5, "violin:constant": 3,
-               "violin:odd-size": 3}
+               "violin:odd-size": 3, "lhs:bounds-reused": 50,
+               "ppos:caller-modifies-result": 30}
 
 
 def S():
@@ -121,6 +122,23 @@ def run_lhs_case(ctx, case):
                   lambda: {"param": j, "witness": wit, "range": [pmin[j], pmax[j]]})
     if n >= 2:
         ctx.nontrivial("lhs", n, pmin, pmax, case["npseed"])
+    # the same bound arrays used for a second and a third sample: they are inputs
+    ctx.tag("lhs:bounds-reused")
+    a, b = np.ascontiguousarray(pmin.copy()), np.ascontiguousarray(pmax.copy())
+    for k in range(3):
+        ctx.api("lhs")
+        s2 = su.lhs(n, a, b)
+        okb = bool(np.array_equal(a, pmin)) and bool(np.array_equal(b, pmax))
+        ctx.check("lhs.bounds-unaltered", okb, "lhs|alters-bounds", case,
+                  lambda: {"call": k + 1, "pmin_now": a[:4], "pmin": pmin[:4]})
+        if s2.shape != (n, len(pmin)):
+            continue
+        for j in range(len(pmin)):
+            ok, wit = lhs_strata_ok(s2[:, j], float(pmin[j]), float(pmax[j]), n)
+            if ok is None:
+                continue
+            ctx.check("lhs.one-per-stratum-on-reuse", ok, "lhs|strata|bounds-reused",
+                      case, lambda: {"call": k + 1, "param": j, "witness": wit})
 
 
 # --------------------------------------------------------- ppos / std normal ----
@@ -138,6 +156,18 @@ def run_ppos_case(ctx, case):
               lambda: {"ppos": p[:5], "tail": p[-5:]})
     if n >= 2:
         ctx.nontrivial("ppos", n, cst)
+    # the caller turns its positions into percentages in place; a later call is not
+    # affected
+    r1 = su.ppos(n, cst)
+    if isinstance(r1, np.ndarray) and r1.size and r1.flags.writeable:
+        ctx.tag("ppos:caller-modifies-result")
+        r1 *= 100.0
+        r1[0] = -5.0
+        ctx.api("ppos", 2)
+        p2 = np.asarray(su.ppos(n, cst), dtype=float)
+        ctx.check("ppos.unaffected-by-callers-edits", bool(np.array_equal(p2, p)),
+                  "ppos|later-call-sees-callers-edits", case,
+                  lambda: {"second": p2[:5], "first": p[:5]})
 
 
 def run_stdnorm_case(ctx, case):
